@@ -68,7 +68,7 @@ theorem textLoop_good (maxMsg : Int) : ∀ (blocks : List Bytes) (tail : List By
       | cons x xs => rfl
     have hgt : ¬ ((b.length : Int) > maxMsg) := by omega
     rw [List.cons_append, textLoop]
-    simp only [Bool.and_false, Bool.false_eq_true, if_false, hemp, hgt]
+    simp only [Bool.false_and, Bool.false_eq_true, if_false, hemp, hgt]
     rw [textLoop_good maxMsg bs tail (fun x hx => h x (List.mem_cons_of_mem _ hx)) ht]
 
 theorem mpubText_good (conf : Conf) (hc : HConf) (hl : Linked conf hc) (body : Bytes) (blocks : List Bytes)
